@@ -22,6 +22,7 @@ SINKS = [
 ]
 INTISH = re.compile(r"\b(usize|u64|u32|u16|isize|i64|i32)\b")
 COMPARE = {"Lt", "Le", "Gt", "Ge", "Eq", "Ne"}
+MAX_BOUND = 1 << 20     # largest constant accepted as a buffer-sized bound (1 MiB)
 MIN_CALL = re.compile(r"(std::cmp::min|std::cmp::Ord::min|::min)$")
 
 
@@ -155,7 +156,7 @@ def bounded_by_constant(f, bb, operand):
     o = f.origin(operand)
     # min(n, K)
     for x in origin_walk(o):
-        if x[0] == "call" and MIN_CALL.search(x[1]) and any(a[0] == "const" and isinstance(a[1], int) for a in x[2]):
+        if x[0] == "call" and MIN_CALL.search(x[1]) and any(a[0] == "const" and isinstance(a[1], int) and a[1] <= MAX_BOUND for a in x[2]):
             return "min(.., %s)" % [a[1] for a in x[2] if a[0] == "const"][0]
     dom = f.dominators(False)
     for b in sorted(dom.get(bb, ())):
@@ -176,5 +177,7 @@ def bounded_by_constant(f, bb, operand):
         other = bs[2] if upper_on_true else bs[1]
         if edge != other and f.dominates(edge, bb, unwind=False):
             k = r[1] if r[0] == "const" else l[1]
+            if k > MAX_BOUND:
+                continue      # a "bound" of gigabytes does not bound anything in proportion to received data
             return "dominated by `n %s %s`" % ("<=" if c[1] in ("Le", "Ge") else "<", k)
     return None
